@@ -111,7 +111,7 @@ theorem cacheHit_g {e : BExp} {q : Nat} {dest : Option Nat} {a : Nat} {s s' : CS
     obtain ⟨gi2, ha2, g, hgw, hL⟩ := gate_gi (cs := [p.2]) (t := a) hcx gi1 rfl rfl
       (by intro c hc; have : c = p.2 := by simpa using hc
           rw [this]; exact fun hh => c1 ((hav1 _).mp hh))
-      hdp1.av0 hdp1.nav (Or.inl hdp1.unread) hdp1.nn
+      hdp1.av0 hdp1.nav hdp1.unread hdp1.nn
     have gi2' : GI Kn ρ σ0 s0 s' := gi2.close (by rw [ha2.expq]; exact hdp1.nc) (fun _ => TgtL.of_gate hgw hL)
     have fr2 := gate_fr (Kn := Kn) (σ0 := σ0) ha2 rfl hgw hL
     refine ⟨gi2', (fr1.trans fr2).mono ?_ ?_ ?_, fun hn => (by cases hn), fun d' hd' => ?_⟩
@@ -213,7 +213,7 @@ theorem addQubit_gi {name : String} {a : Nat} {s s' : CState}
     exact ⟨(gi.tgt g hg).1, fun h' => (gi.tgt g hg).2 (hav _ h')⟩
   · intro g hg c hc; rw [hL] at hg
     exact fun h' => gi.ctl g hg c hc (hav _ h')
-  · rw [hL, hcur, hmk]; exact gi.ben
+  · rw [hL, hcur]; exact gi.ben
   · intro n q hk hq
     rw [hqm n (hne n hk)] at hq
     obtain ⟨t1, t2, t3⟩ := gi.names n q hk hq
@@ -330,7 +330,7 @@ theorem exprG_tt (hT : Kn "TRUE") : ExprG Kn ρ σ0 s0 .tt := by
     subst this
     obtain ⟨u2, s5, hx, hl⟩ := run_bind_ok.mp h3
     obtain ⟨gi5, ha5, g, hgw, hL⟩ := gate_gi (cs := []) (t := q) hx gi2 rfl rfl (fun _ hc => by cases hc)
-      hpr.av0 hpr.nav (Or.inl hpr.unread) hpr.nn
+      hpr.av0 hpr.nav hpr.unread hpr.nn
     have gi5' := gi5.close (by rw [ha5.expq]; exact hpr.nc) (fun _ => TgtL.of_gate hgw hL)
     have fr5 := gate_fr (Kn := fun n => Kn n ∧ n ≠ "TRUE") (σ0 := σ0) ha5 rfl hgw hL
     obtain ⟨es5, hq5, _⟩ := lookup_ok hl gi5'.good
